@@ -152,6 +152,9 @@ func trimStack(st []byte) string {
 	return strings.Join(lines, "\n")
 }
 
+// CPUTime is the process's user+system CPU time so far.
+func CPUTime() time.Duration { return cpuTime() }
+
 func cpuTime() time.Duration {
 	var ru syscall.Rusage
 	if err := syscall.Getrusage(syscall.RUSAGE_SELF, &ru); err != nil {
